@@ -742,6 +742,35 @@ func fairSweep(res *hx.Result) *hx.Finding {
 	}
 	res.Histogram["isPreferred-sweep-calls"] += n
 	res.Histogram["isPreferred-sweep-disagreements"] += bad
+	if first != nil {
+		return first
+	}
+	// The whole advertised priority range (MinInt32..MaxInt32): when two priorities differ
+	// by more than 700, 2^(difference/100) > 65 >= (e_i+1)/(e_j+1), so the documented score
+	// (executing+1)*2^(priority/100) is strictly lower for the numerically lower priority,
+	// whatever the executing counts (<= 64) and the tie-breaker are.  Judged on the real
+	// function alone (no model needed): a wrong answer is a violation of the documented order.
+	extremes := []int64{-2147483648, -2147483647, -2000000000, -1073741824, -1000000, -701, 0, 701, 1000000, 1073741823, 2000000000, 2147483646, 2147483647}
+	for _, pi := range extremes {
+		for _, pj := range extremes {
+			if d := pi - pj; d >= -700 && d <= 700 {
+				continue
+			}
+			for _, ei := range []int{0, 1, 7, 64} {
+				for _, ej := range []int{0, 1, 7, 64} {
+					for tie := 0; tie <= 1; tie++ {
+						res.Histogram["isPreferred-extreme-calls"]++
+						got := scheduler.VerifIsPreferred(ei, int32(pi), ej, int32(pj), tie == 1)
+						if want := pi < pj; got != want {
+							return &hx.Finding{Kind: "violation", Property: "C04", Name: "C04.child_is_score_minimal (documented score order over the full priority range)",
+								What:    fmt.Sprintf("isPreferred(executing %d, priority %d; executing %d, priority %d; tieBreaker %d) = %v although the score (executing+1)*2^(priority/100) of the first is %s", ei, pi, ej, pj, tie, got, map[bool]string{true: "strictly lower", false: "strictly higher"}[want]),
+								History: []string{fmt.Sprintf("ispreferred %d %d %d %d %d", ei, pi, ej, pj, tie)}, Sig: hx.Sig("C04", "violation", "isPreferred-extreme")}
+						}
+					}
+				}
+			}
+		}
+	}
 	return first
 }
 
